@@ -37,7 +37,7 @@ func checkC10(c *Ctx, r *Report) {
 	c10d(c, r)
 	// whether a rule ends with `;`, with the next rule's name, with %% or with the end of the file is layout: on every
 	// way out of parseRule the literals first seen in the rule must have been handed to the declaration list (C11.a)
-	includeSome(r, "C10.d", func(sub *Report) { c11a(c, sub) }, "literal-tokens-flushed")
+	includeSome(r, "C10.d", func(sub *Report) { c11a(c, sub) }, "literal-tokens-flushed", "max-scan-before-numbering")
 	// the order of the names on one declaration line is layout too: each name's code is decided from its own tokens
 	includeSome(r, "C10.d", func(sub *Report) { c11e(c, sub); c11f(c, sub); c11g(c, sub) }, "named-token-code", "declared-token-code", "no-value-carried-between-names")
 }
